@@ -161,6 +161,11 @@ def install_guards(cx):
         if l[0] == "is" and l[2] is False:
             r = term_is(cx.prog, ("is", l[1], True))
             return r is not None and is_f(r[1], "SnapshotMetadata.index") and is_f(r[2], "SnapshotMetadata.term")
+        # the log has no term at all for the snapshot's index: it cannot match
+        if l[0] == "in" and l[2] == frozenset(["Err"]):
+            from ..idioms import TERM_CALL
+            b = match(TERM_CALL, l[1])
+            return bool(b) and is_f(b["idx"], "SnapshotMetadata.index")
         return False
     require_all(cx, c, cx.site_key(c, "install"), "a snapshot replaces the log only if it is not behind the commit index, the node is a follower and a member, and it is not an already-matching unrequested snapshot",
                 [("!(snap.index < committed)", not_behind), ("state == Follower", follower), ("self.id listed in the snapshot's ConfState", member),
